@@ -149,3 +149,57 @@ Proof.
   intros E H D. destruct (elems_shape k E) as [[_ X]|(a & b & Eq & Nb & Ea & Eb & X)]; [congruence|].
   exists b. rewrite <- H, X. auto.
 Qed.
+
+(* ---- UTF-8: a prefix that ends just before a '/' of a valid string is valid ---- *)
+Ltac kill_utf8 H :=
+  repeat first
+    [ discriminate H
+    | match type of H with
+      | (if ?c then _ else _) = true => destruct c
+      | (match ?l with [] => _ | _ :: _ => _ end) = true => destruct l
+      end
+    | progress cbn in H
+    | progress rewrite ?andb_false_r in H ].
+
+Lemma utf8_prefix a : forall b, utf8_valid (a ++ slash :: b) = true -> utf8_valid a = true.
+Proof.
+  remember (length a) as n eqn:Hn. revert a Hn.
+  induction n as [n IH] using (well_founded_induction Wf_nat.lt_wf). intros a Hn b H.
+  destruct a as [|b0 r0]; [reflexivity|].
+  cbn [app] in H. cbn [utf8_valid] in H |- *.
+  destruct (b0 <=? 127).
+  - apply (IH (length r0)) with (b := b); [subst; simpl; lia|reflexivity|exact H].
+  - destruct r0 as [|b1 r1]; cbn [app] in H; [exfalso; kill_utf8 H; fail|].
+    destruct (in_rng b0 194 223).
+    + apply andb_true_iff in H. destruct H as [H1 H2]. rewrite H1. cbn [andb].
+      apply (IH (length r1)) with (b := b); [subst; simpl; lia|reflexivity|exact H2].
+    + destruct r1 as [|b2 r2]; cbn [app] in H; [exfalso; kill_utf8 H; fail|].
+      destruct (N.eqb b0 224).
+      * apply andb_true_iff in H. destruct H as [H1 H2]. rewrite H1. cbn [andb].
+        apply (IH (length r2)) with (b := b); [subst; simpl; lia|reflexivity|exact H2].
+      * destruct (in_rng b0 225 236 || in_rng b0 238 239).
+        -- apply andb_true_iff in H. destruct H as [H1 H2]. rewrite H1. cbn [andb].
+           apply (IH (length r2)) with (b := b); [subst; simpl; lia|reflexivity|exact H2].
+        -- destruct (N.eqb b0 237).
+           ++ apply andb_true_iff in H. destruct H as [H1 H2]. rewrite H1. cbn [andb].
+              apply (IH (length r2)) with (b := b); [subst; simpl; lia|reflexivity|exact H2].
+           ++ destruct r2 as [|b3 r3]; cbn [app] in H; [exfalso; kill_utf8 H; fail|].
+              destruct (N.eqb b0 240).
+              ** apply andb_true_iff in H. destruct H as [H1 H2]. rewrite H1. cbn [andb].
+                 apply (IH (length r3)) with (b := b); [subst; simpl; lia|reflexivity|exact H2].
+              ** destruct (in_rng b0 241 243).
+                 --- apply andb_true_iff in H. destruct H as [H1 H2]. rewrite H1. cbn [andb].
+                     apply (IH (length r3)) with (b := b); [subst; simpl; lia|reflexivity|exact H2].
+                 --- destruct (N.eqb b0 244); [|discriminate].
+                     apply andb_true_iff in H. destruct H as [H1 H2]. rewrite H1. cbn [andb].
+                     apply (IH (length r3)) with (b := b); [subst; simpl; lia|reflexivity|exact H2].
+Qed.
+
+(* the parent of a valid path is a valid path *)
+Theorem valid_path_parent p : valid_path p = true -> valid_path (path_dir p) = true.
+Proof.
+  intros V. destruct (str_eqb_spec p dot) as [->|D]; [reflexivity|].
+  destruct (valid_path_shape p V D) as [[_ H]|(a & b & Eq & _ & Ea & _ & H)]; rewrite H; [reflexivity|].
+  apply valid_path_spec. split; [|right; exact Ea].
+  apply valid_path_spec in V. destruct V as [U _]. rewrite Eq in U. eapply utf8_prefix. exact U.
+Qed.
